@@ -422,6 +422,9 @@ impl Strike {
 struct Group {
     sh: Arc<Shared>,
     ctl: ServerCtl,
+    /// all connections of the group are in their phase (or already over): strike together
+    ready: Strike,
+    /// graceful-drain groups: everybody else is finished, fire the one shutdown signal
     strike: Strike,
     establish: tokio::sync::Mutex<()>,
     server_rt: tokio::runtime::Handle,
@@ -521,7 +524,8 @@ impl Group {
         let scen = rec.scen.clone();
         let strike_member = cfg.entry == Entry::Drain && (scen.cause == "cancel" || scen.cause == "abort" || scen.phase == "stall");
         let mut arrived = false;
-        let r = self.clone().run_conn_inner(&rec, &mut ev_rx, &mut res, &cfg, &scen, strike_member, &mut arrived).await;
+        let mut ready = false;
+        let r = self.clone().run_conn_inner(&rec, &mut ev_rx, &mut res, &cfg, &scen, strike_member, &mut arrived, &mut ready).await;
         if let Err(note) = r {
             res.notes.push(note);
         }
@@ -529,6 +533,9 @@ impl Group {
         rec.hold.open();
         rec.inline_gate.open();
         rec.park_gate.open();
+        if !ready {
+            self.ready.arrive();
+        }
         if !arrived {
             self.strike.arrive();
         }
@@ -536,7 +543,7 @@ impl Group {
     }
 
     #[allow(clippy::too_many_arguments)]
-    async fn run_conn_inner(self: Arc<Self>, rec: &Arc<ConnRec>, ev_rx: &mut UnboundedReceiver<Evt>, res: &mut ConnResult, cfg: &GroupCfg, scen: &Scen, strike_member: bool, arrived: &mut bool) -> Result<(), String> {
+    async fn run_conn_inner(self: Arc<Self>, rec: &Arc<ConnRec>, ev_rx: &mut UnboundedReceiver<Evt>, res: &mut ConnResult, cfg: &GroupCfg, scen: &Scen, strike_member: bool, arrived: &mut bool, ready: &mut bool) -> Result<(), String> {
         // ---- establish (one connection of the group at a time, so callbacks can be attributed) ----
         let lock = self.establish.lock().await;
         *self.sh.establishing.lock().unwrap() = if scen.hsfail() { None } else { Some(rec.clone()) };
@@ -597,6 +604,8 @@ impl Group {
                 _ => {} // stall: say nothing until the drain deadline aborts the task
             }
             drop(lock);
+            *ready = true;
+            self.ready.arrive();
             if scen.phase == "stall" {
                 *arrived = true;
                 self.strike.arrive();
@@ -696,7 +705,10 @@ impl Group {
             res.live = if self.sh.registry_present(id, None) && (0..cfg.nconn + cfg.nctx).all(|u| self.sh.registry_present(id, Some(u))) { "p".into() } else { "a".into() };
         }
 
-        // ---- the strike ----
+        // ---- the strike: all connections of the group at once ----
+        *ready = true;
+        self.ready.arrive();
+        self.ready.wait_fired().await;
         let mut ws = Some(ws);
         match scen.cause.as_str() {
             "close" => {
@@ -867,9 +879,11 @@ fn start_group(cfg: GroupCfg, n: usize, server_rt: &tokio::runtime::Runtime) -> 
         }
         Entry::Adopt => ServerCtl::Adopt { shared: server.into_shared() },
     };
+    let (rtx, rrx) = tokio::sync::watch::channel(false);
     Arc::new(Group {
         sh,
         ctl,
+        ready: Strike { n, arrived: Mutex::new(0), shutdown: Mutex::new(None), fired_tx: rtx, fired_rx: rrx },
         strike: Strike { n, arrived: Mutex::new(0), shutdown: Mutex::new(shutdown_tx), fired_tx, fired_rx },
         establish: tokio::sync::Mutex::new(()),
         server_rt: h,
